@@ -354,6 +354,28 @@ func ruleOpenLiteralTypestate(c *Ctx, rule string) {
 					}
 				}
 			}
+		case *ssa.Extract:
+			// a header-parsing helper returning the size among its results:
+			// every non-constant return hands back the parsed number
+			if call, ok := x.Tuple.(*ssa.Call); ok && depth < 2 {
+				if h := staticCallee(call); h != nil && h.Blocks != nil && inModule(h) {
+					some := false
+					for _, r := range returnsOf(h) {
+						if x.Index >= len(r.Results) {
+							return false
+						}
+						rv := unspill(r.Results[x.Index])
+						if _, isConst := rv.(*ssa.Const); isConst {
+							continue
+						}
+						if !fromHeader(rv, depth+1) {
+							return false
+						}
+						some = true
+					}
+					return some
+				}
+			}
 		case *ssa.Parameter:
 			if depth >= 2 {
 				return false
